@@ -116,6 +116,7 @@ def run(chk):
         from common import BuildBroken
         chk.broken.append(BuildBroken("correspondence", "a wire type's codec differs from the model of its classified descriptor", json.dumps(tie_bad)))
     chk.extra["types_tested"] = sorted(types)
+    lists_of_structs(chk)
     # C-structs and NVRAM containers (independent sub-model)
     try:
         import cstruct_tie
@@ -128,6 +129,90 @@ def run(chk):
     chk.assumptions = ["zigpy leaf types are modelled (little-endian fixed width, enums accept undefined members, bit-field structs "
                        "as their byte image); tested here per type"]
     return chk.finish()
+
+
+def lists_of_structs(chk):
+    """Lists (counted, fixed, greedy) whose items are C-style structs, under both alignment modes: the list's encoding is its
+    count prefix followed by the items' own encodings IN THE SAME alignment mode, decoding encoding + suffix returns the
+    items and exactly the suffix, and every truncation raises.  (The struct codec itself is tied to the model by the
+    cstruct part; this is the composition of the two.)"""
+    import zigpy.types as zt
+    import zigpy_zboss.types as t
+    from zigpy_zboss.types.cstruct import CStruct
+    rng = chk.rng
+
+    class Tail(CStruct):            # trailing padding when aligned: 4 + 1 (+3)
+        a: zt.uint32_t
+        b: zt.uint8_t
+
+    class Inner(CStruct):           # inter-field padding when aligned: 1 (+3) + 4
+        a: zt.uint8_t
+        b: zt.uint32_t
+
+    class Mixed(CStruct):           # 2 + 1 (+1) + 2 (+2?) ...
+        a: zt.uint16_t
+        b: zt.uint8_t
+        c: zt.uint16_t
+
+    class Flat(CStruct):            # no padding at all
+        a: zt.uint8_t
+        b: zt.uint8_t
+    bad = None
+    n = 0
+    for S in (Tail, Inner, Mixed, Flat):
+        class LV(t.LVList, item_type=S, length_type=zt.uint8_t):
+            pass
+
+        class FX(t.FixedList, item_type=S, length=3):
+            pass
+
+        class GR(t.CompleteList, item_type=S):
+            pass
+        for L, kind in ((LV, "counted"), (FX, "fixed"), (GR, "greedy")):
+            for align in (False, True):
+                for count in ([3] if kind == "fixed" else [0, 1, 2, 4]):
+                    items = [S(**{f.name: rng.randrange(1, 1 << (8 * f.type._size)) for f in S.fields}) for _ in range(count)]
+                    want = (bytes([count]) if kind == "counted" else b"") + b"".join(i.serialize(align=align) for i in items)
+                    try:
+                        enc = bytes(L(items).serialize(align=align))
+                    except Exception as e:  # noqa
+                        enc = b"EXC" + type(e).__name__.encode()
+                    n += 1
+                    what = None
+                    if enc != want:
+                        what = "encodes to %s, its items encode (align=%s) to %s" % (enc.hex(), align, want.hex())
+                    else:
+                        for suffix in ([b""] if kind == "greedy" else [b"", b"\x01", b"\xde\xad\x00"]):
+                            n += 1
+                            try:
+                                val, rest = L.deserialize(enc + suffix, align=align)
+                                ok = list(val) == items and bytes(rest) == suffix
+                                got = "%d items, %d bytes left" % (len(val), len(rest))
+                            except Exception as e:  # noqa
+                                ok, got = False, "raised %s" % type(e).__name__
+                            if not ok:
+                                what = "decoding its encoding + %d further bytes gives %s" % (len(suffix), got)
+                                break
+                        if what is None and kind != "greedy":
+                            for cut in range(len(enc)):
+                                n += 1
+                                try:
+                                    val, rest = L.deserialize(enc[:cut], align=align)
+                                    what = "its encoding (%d bytes) cut to %d bytes decodes to %d items instead of raising" % (len(enc), cut, len(val))
+                                    break
+                                except ValueError:
+                                    pass
+                                except Exception as e:  # noqa
+                                    what = "its encoding cut to %d bytes raises %s, not a value error" % (cut, type(e).__name__)
+                                    break
+                    if what is not None and bad is None:
+                        bad = ("%s list of %s (fields %s), align=%s, %d items" % (kind, S.__name__, [f.type.__name__ for f in S.fields], align, count), what)
+    chk.evaluations += n
+    chk.count("lists_of_structs", n)
+    chk.oblige("monitor:lists-of-structs-compose-with-the-struct-codec(both alignment modes: %d evaluations)" % n, bad is None,
+               repr(bad)[:300] if bad else "")
+    if bad:
+        chk.violation("%s: %s" % bad, {"list": bad[0], "what": bad[1]}, key="list-of-structs")
 
 
 def replay(path):
